@@ -1,5 +1,119 @@
 import XsVerif.Driver.Util
-open Lean XsVerif.Driver
+import XsVerif.Model.Modes
+open Lean XsVerif.Driver XsVerif.Modes
 
--- stub: replaced when the model of C04 lands
-def main : IO Unit := XsVerif.Driver.run fun _ => .error "C04 driver not implemented"
+namespace XsVerif.Driver.C04
+
+/-- steps: ["c",e] collect | ["d",e] direct | ["f"] flush | ["r",d] result | ["s"] stop -/
+def parseStep (j : Json) : Except String (Step Nat) := do
+  let a ← j.getArr?
+  let tag ← (a[0]?.getD Json.null).getStr?
+  match tag with
+  | "c" => return .collect (← (a[1]?.getD Json.null).getNat?)
+  | "d" => return .direct (← (a[1]?.getD Json.null).getNat?)
+  | "f" => return .flush
+  | "r" => return .result (← (a[1]?.getD Json.null).getNat?)
+  | "s" => return .stop
+  | _ => throw "step"
+
+def parseScript (j : Json) (k : String) : Except String (List (Step Nat)) := do
+  (← getArr j k).toList.mapM parseStep
+
+def nat (n : Nat) : Json := Json.num (JsonNumber.fromNat n)
+def nats (l : List Nat) : Json := Json.arr (l.map nat).toArray
+
+def itemJson : Item Nat → Json
+  | .err e => Json.arr #["e", nat e]
+  | .data d => Json.arr #["d", nat d]
+
+def genJson (g : Gen Nat) : Json :=
+  Json.mkObj [("items", Json.arr (g.items.map itemJson).toArray),
+              ("raised", match g.raised with | some e => nat e | none => Json.null)]
+
+def shapeJson : Shape Nat → Json
+  | .none => Json.mkObj [("shape", "none")]
+  | .one d => Json.mkObj [("shape", "one"), ("d", nat d)]
+  | .many l => Json.mkObj [("shape", "many"), ("d", nats l)]
+
+def outJson {α} (f : α → Json) : Out α → Json
+  | .ok a => Json.mkObj [("ok", f a)]
+  | .raise e => Json.mkObj [("raise", nat e)]
+
+def decJson (lax : Bool) (o : Out (Shape Nat × List Err)) : Json :=
+  outJson (fun (p : Shape Nat × List Err) =>
+    if lax then Json.mkObj [("data", shapeJson p.1), ("errors", nats p.2)]
+    else Json.mkObj [("data", shapeJson p.1)]) o
+
+def modeOf (s : String) : Except String Mode :=
+  match s with
+  | "strict" => pure .strict | "lax" => pure .lax | "skip" => pure .skip | _ => throw "mode"
+
+def optNat : Option Nat → Json
+  | some n => nat n
+  | none => Json.null
+
+def mixOut (lax : Bool) (o : Out (Option Nat × List Err)) : Json :=
+  outJson (fun (p : Option Nat × List Err) =>
+    if lax then Json.mkObj [("data", optNat p.1), ("errors", nats p.2)]
+    else Json.mkObj [("data", optNat p.1)]) o
+
+def parseMember (j : Json) : Except String (Member Nat) := do
+  let a ← j.getArr?
+  let tag ← (a[0]?.getD Json.null).getStr?
+  match tag with
+  | "ok" => return .ok (← (a[1]?.getD Json.null).getNat?)
+  | "lex" => return .lexical (← (a[1]?.getD Json.null).getNat?)
+  | "facet" =>
+    let rest ← (← (a[2]?.getD Json.null).getArr?).toList.mapM (·.getNat?)
+    return .facet (← (a[1]?.getD Json.null).getNat?) rest
+  | _ => throw "member"
+
+def handle (j : Json) : Except String Json := do
+  let op ← getStr j "op"
+  match op with
+  | "api" =>
+    let sv ← parseScript j "sv"
+    let sd ← parseScript j "sd"
+    return Json.mkObj [
+      ("wf_v", wf sv false), ("wf_d", wf sd false), ("nodata_v", (results sv).isEmpty),
+      ("ev_v", nats (events sv)), ("ev_d", nats (events sd)),
+      ("iterErrors", nats (iterErrors sv)),
+      ("isValid", outJson (fun (b : Bool) => Json.bool b) (isValid sv)),
+      ("validate", outJson (fun (_ : Unit) => Json.null) (validate sv)),
+      ("decode", Json.mkObj [("strict", decJson false (decode .strict sd)),
+                             ("lax", decJson true (decode .lax sd)),
+                             ("skip", decJson false (decode .skip sd))]),
+      ("iterDecode", Json.mkObj [("strict", genJson (iterDecode .strict sd)),
+                                 ("lax", genJson (iterDecode .lax sd)),
+                                 ("skip", genJson (iterDecode .skip sd))]),
+      ("cli", nat (cliExit [FileRes.errors (iterErrors sv).length]))]
+  | "mix" =>
+    let ev ← (← getArr j "events").toList.mapM (·.getNat?)
+    let v := match j.getObjVal? "value" with
+      | .ok (.num n) => some n.mantissa.toNat
+      | _ => none
+    let c : Core Nat := ⟨ev, v⟩
+    return Json.mkObj [
+      ("iterErrors", nats (mixIterErrors c)), ("isValid", mixIsValid c),
+      ("validate", outJson (fun (_ : Unit) => Json.null) (mixValidate c)),
+      ("decode", Json.mkObj [("strict", mixOut false (mixDecode .strict c)),
+                             ("lax", mixOut true (mixDecode .lax c)),
+                             ("skip", mixOut false (mixDecode .skip c))])]
+  | "cli" =>
+    let fs ← (← getArr j "files").toList.mapM fun x =>
+      match x with
+      | .str "lib" => pure FileRes.libError
+      | .num n => pure (FileRes.errors n.mantissa.toNat)
+      | _ => throw "file"
+    return Json.mkObj [("exit", nat (cliExit fs)), ("total", nat (totErrors fs)),
+                       ("unsaturated", nat (osStatus (cliCodeUnsaturated fs)))]
+  | "union" =>
+    let ms ← (← getArr j "members").toList.mapM parseMember
+    let g ← getNat j "generic"
+    return Json.mkObj [("strict", nats (unionEvents .strict ms g)), ("lax", nats (unionEvents .lax ms g)),
+                       ("skip", nats (unionEvents .skip ms g))]
+  | _ => throw s!"unknown op {op}"
+
+end XsVerif.Driver.C04
+
+def main : IO Unit := XsVerif.Driver.run XsVerif.Driver.C04.handle
